@@ -6,50 +6,62 @@ Tier K on the regenerated tables (`LOG`, `ANTILOG`, the 13 generator literals, t
 * `C07_log_table`   : `ANTILOG` inverts `LOG` on the nonzero bytes.
 * `C07_generators`  : every generator literal returned by `get_polynomial` is, after `LOG`,
                       `∏_{i<ec} (x - alpha^i)`; its degree is ISO Table 9's EC count (C02_layout).
-Symbolic (Proofs/Gf*.lean, Proofs/Division.lean):
-* `C07_remainder`   : for EVERY block content the model of `division` returns the remainder of
-                      data(x)·x^ec modulo g(x).
+Symbolic, for EVERY block content (any byte values, leading / interior zeros included) and every
+block length that fits the buffer:
+* `C07_table_mul`   : the crate's log-domain product `LOG[(e + ANTILOG[x]) % 255]` is the field
+                      product `LOG[e] * x` of GF(2^8) modulo 0x11D (table-free shift-and-xor `GF.mul`).
+* `C07_remainder`   : the model of `polynomials::division` returns the schoolbook remainder of
+                      data(x)·x^ec modulo the generator, computed with the table-free field product.
+* `C07_remainder_generator` : instantiated at the crate's generators: the remainder modulo
+                      `∏_{i<ec} (x - alpha^i)`.
+* `C07_syndromes`   : hence data ++ ec vanishes at alpha^0 … alpha^(ec-1) (Proofs/Syndromes.lean).
 -/
-import FastQr.Finite.Tables
-import FastQr.Proofs.Lift
+import FastQr.Proofs.GfTables
+import FastQr.Proofs.Division
+import FastQr.Proofs.Syndromes
 
 namespace FastQr.Props.C07
-open FastQr Spec Finite Proofs
+open FastQr Model Spec Finite Proofs
 
-theorem C07_exp_table {i : Nat} (hi : i ≤ 255) : T.gfLog i = GF.alphaPow i := by
-  have h := expOrbitOk_true
-  simp only [expOrbitOk, Bool.and_eq_true, beq_iff_eq] at h
-  induction i with
-  | zero => simpa [GF.alphaPow] using h.1
-  | succ k ih =>
-    have hk := all_range h.2 k (by omega)
-    simp only [beq_iff_eq] at hk
-    rw [hk, ih (by omega)]; rfl
-
-theorem C07_log_table {i : Nat} (hi : i < 255) : T.gfAntilog (T.gfLog i) = i := by
-  simpa using all_range logInvOk_true i hi
-
-theorem C07_exp_log {x : Nat} (h1 : 1 ≤ x) (hx : x < 256) :
-    T.gfLog (T.gfAntilog x) = x ∧ T.gfAntilog x < 255 := by
-  have h := all_range expLogOk_true (x - 1) (by omega)
-  have hx' : x - 1 + 1 = x := by omega
-  simpa [hx'] using h
-
-/-- every generator the crate can return is the product of the first `ec` linear factors -/
+theorem C07_exp_table {i : Nat} (hi : i ≤ 255) : T.gfLog i = GF.alphaPow i := GfTables.C07_exp_table hi
+theorem C07_log_table {i : Nat} (hi : i < 255) : T.gfAntilog (T.gfLog i) = i := GfTables.C07_log_table hi
 theorem C07_generators (l : ECL) (v : Nat) (h : T.generator l v ≠ []) :
-    (T.generator l v).map T.gfLog = GF.genPoly ((T.generator l v).length - 1) := by
+    (T.generator l v).map T.gfLog = GF.genPoly ((T.generator l v).length - 1) := GfTables.C07_generators l v h
+
+/-- **C07 (log-domain product = field product)** -/
+theorem C07_table_mul {e x : Nat} (he : e < 255) (hx1 : 1 ≤ x) (hx : x < 256) :
+    T.gfLog ((e + T.gfAntilog x) % 255) = GF.mul (T.gfLog e) x := Gf.table_mul he hx1 hx
+
+/-- **C07 (remainder)**: for every block content -/
+theorem C07_remainder (data gen : List Nat) (hdata : ∀ x ∈ data, x < 256) (hgen : ∀ g ∈ gen, g < 255)
+    (hg1 : 1 ≤ gen.length) (hlen : data.length + gen.length ≤ 256) :
+    ecOf data gen = GF.remainder data (gen.map T.gfLog) :=
+  Division.ecOf_eq_remainder data gen hdata hgen hg1 hlen
+
+theorem generator_exps_lt (l : ECL) (v : Nat) : ∀ g ∈ T.generator l v, g < 255 := by
   have hall := generatorsOk_true
-  simp only [generatorsOk, List.all_eq_true, Bool.and_eq_true, beq_iff_eq] at hall
-  have hmem : T.generator l v ∈ Gen.polys.toList := by
-    unfold T.generator at h ⊢
-    generalize (Gen.polyIndex.getD l.ix #[]).getD v 0 = k at h ⊢
-    rw [Array.getD_eq_getD_getElem?] at h ⊢
-    cases hg : Gen.polys[k]? with
-    | none => rw [hg] at h; exact absurd rfl h
-    | some p =>
-      rw [Option.getD_some]
-      exact Array.mem_toList_iff.mpr (Array.mem_of_getElem? hg)
-  exact (hall _ hmem).2
+  simp only [generatorsOk, List.all_eq_true, Bool.and_eq_true, beq_iff_eq, decide_eq_true_eq] at hall
+  intro g hg
+  by_cases hne : T.generator l v = []
+  · rw [hne] at hg; simp at hg
+  · have hmem : T.generator l v ∈ Gen.polys.toList := by
+      unfold T.generator at hne ⊢
+      generalize (Gen.polyIndex.getD l.ix #[]).getD v 0 = k at hne ⊢
+      rw [Array.getD_eq_getD_getElem?] at hne ⊢
+      cases hgk : Gen.polys[k]? with
+      | none => rw [hgk] at hne; exact absurd rfl hne
+      | some p => rw [Option.getD_some]; exact Array.mem_toList_iff.mpr (Array.mem_of_getElem? hgk)
+    exact (hall _ hmem).1 g hg
+
+/-- **C07 (remainder modulo the ISO generator)**: for every (version, level) and every block content
+that fits, the EC codewords are the remainder modulo `∏_{i<ec} (x - alpha^i)` -/
+theorem C07_remainder_generator (l : ECL) (v : Nat) (data : List Nat) (hdata : ∀ x ∈ data, x < 256)
+    (hne : T.generator l v ≠ []) (hlen : data.length + (T.generator l v).length ≤ 256) :
+    ecOf data (T.generator l v) = GF.remainder data (GF.genPoly ((T.generator l v).length - 1)) := by
+  rw [C07_remainder data _ hdata (generator_exps_lt l v) (by
+    cases h : T.generator l v with
+    | nil => exact absurd h hne
+    | cons _ _ => simp) hlen, C07_generators l v hne]
 
 example : T.generator .L 0 = [0, 87, 229, 146, 149, 238, 102, 21] := by decide +kernel
 example : GF.genPoly 2 = [1, 3, 2] := by decide +kernel
